@@ -337,18 +337,20 @@ func BoolCallEdges(fn *ssa.Function, ok func(c *ssa.Call) bool) EdgeSet {
 		if ifi == nil {
 			continue
 		}
-		f := CondFact(ifi.Cond)
-		if f.Kind != FBool || f.Field != "" {
-			continue
-		}
-		c, _ := f.Subject.(*ssa.Call)
-		if c == nil || !ok(c) {
-			continue
-		}
-		if f.Negated {
-			es.Add(b, 1)
-		} else {
-			es.Add(b, 0)
+		for _, ef := range CondFactsOf(ifi) {
+			f := ef.Fact
+			if f.Kind != FBool || f.Field != "" {
+				continue
+			}
+			c, _ := f.Subject.(*ssa.Call)
+			if c == nil || !ok(c) {
+				continue
+			}
+			if f.Negated && ef.OnFalse {
+				es.Add(b, 1)
+			} else if !f.Negated && ef.OnTrue {
+				es.Add(b, 0)
+			}
 		}
 	}
 	return es
